@@ -25,7 +25,7 @@ RULE = (
     'unit-less nodes (% converts, cm is refused); !constant below a modification; exact comparison of unconverted '
     'float literals; units of another dimension written with the same symbols; integer arrays; the empty string; '
     'a refusal has to come from parse(), not from data(). Round 9: strings (the empty one included) assigned by '
-    'reference; values returned by registered functions, False and 0 included (strategy function_value). Distinct '
+    'reference; values returned by registered functions, False and 0 included (strategy function_value). Round 10: an unrelated parse (other definition of the custom unit) between the two stages; numbers WITH units returned by functions, custom units on either side. Distinct '
     '= distinct rendered text.'
 )
 ASSUMPTIONS = [
